@@ -2840,7 +2840,13 @@ impl GlobalInferenceCtx<'_> {
                                 }
 
                                 // this is not a polymorphic function.
-                                let lambda_loc = lambda_loc.make_concrete(None);
+                                //
+                                // If it is nested in an instantiation of a generic function
+                                // its headers can mention the comptime parameters of that
+                                // function, so every instantiation gets its own copy of it
+                                // (like the body of the generic function itself does).
+                                let lambda_loc =
+                                    lambda_loc.make_concrete(self.loc.comptime_args());
 
                                 self.init_new_concrete(
                                     lambda_loc,
